@@ -32,6 +32,11 @@ fn main() {
         println!("{}", mac::child(&args[2]));
         return;
     }
+    if args[1] == "sgchild" {
+        // one schedule on the process-wide holder in this fresh process
+        println!("{}", singleton::child(&args[2]));
+        return;
+    }
     let f = std::fs::File::open(&args[2]).expect("case file");
     let lines: Vec<String> = std::io::BufReader::new(f)
         .lines()
